@@ -17,6 +17,7 @@ _whole.install(globals(), "C11",
                forces=[(2, {"cap_evals": 900}), (1, {"cap_evals": 900, "height": 1, "engines": ["DE"]}), (1, {"cap_evals": 900, "height": 2, "engines": ["SEA", "SHADE"]}),
                        (1, {"cap_evals": 900, "height": 2, "engines": ["DEdither", "CMA"]}),
                        (1, {"cap_evals": 600, "height": 1, "engines": ["SEA"], "dim": 2, "levels_patch": [{"p_mutation": 0.1, "pop": 4, "gens": 1}], "gsc": {"kind": "MetaepochLimit", "n": 40}}),
+                       (1, {"cap_evals": 900, "height": 2, "engines": ["DE", "Local"], "sprout": {"kind": "simple", "far": 0.0, "level_limit": 3}, "gsc": {"kind": "MetaepochLimit", "n": 6}}),
                        (1, {"cap_evals": 600, "height": 2, "engines": ["GAStyleSEA", "CMA"], "dim": 2, "levels_patch": [{"p_mutation": 0.1, "pop": 5, "gens": 1}], "gsc": {"kind": "MetaepochLimit", "n": 30}})])
 
 # of the driver translator's obligations only the population-freshness analysis concerns this property: the translator refuses
